@@ -192,6 +192,14 @@ def cases(tier, seed):
                 for rep in range(2 if tier == 'quick' else 6):
                     o, o2 = desc(kind)
                     yield {'kind': kind, 'obj': o, 'other': o2, 'history': [q, m, q], 'origin': 'query, mutate, same query'}
+    # the memoised analyses of a grammar, in every order, on grammars where the counters do real work
+    ANALYSES = ['generating', 'nullable', 'is_empty', 'generate_epsilon', 'contains_eps', 'words2', 'remove_useless', 'remove_epsilon', 'normal_form', 'is_finite']
+    rng4 = random.Random(seed * 32452843 + 9)
+    for a in ANALYSES:
+        for b in ANALYSES:
+            for rep in range(3 if tier == 'quick' else 12):
+                g = C.random_nullable_heavy(rng4)
+                yield {'kind': 'CFG', 'obj': C.to_json(g), 'other': C.to_json(g), 'history': [a, b] + ([rng4.choice(ANALYSES)] if rep == 2 else []), 'origin': 'analyses of a nullable-heavy grammar, all ordered pairs'}
     for i in range(n):
         R = F.random_enfa(rng, rng.choice([1, 2, 3]), ['a', 'b'], eps=rng.random() < 0.5); R2 = F.random_enfa(rng, rng.choice([1, 2]), ['a', 'b'], eps=rng.random() < 0.5)
         yield {'kind': 'ENFA', 'obj': F.to_json(R), 'other': F.to_json(R2), 'history': hist('ENFA')}
